@@ -704,3 +704,5 @@ M('zmq-D53-shape-wall-clock', ['C06'], Z, "from time import monotonic_ns as time
 M('zmq-eph-close-withdraws-permission', ['C05'], Z, "                            if not client.ephemeral:  # a listener leaving changes nothing for the others and must not hold the publisher up\n                                do_send = False", "                            if True:\n                                do_send = False", ['C05.R11'])
 M('zmq-eph-id-in-balanced-max', ['C05'], Z, "                        out_prev_id if ephemeral else max(out_prev_id, prev_id),", "                        max(out_prev_id, prev_id),", ['C05.R11'])
 M('zmq-D54-shape-eph-close-keeps-partial', ['C05'], Z, "                            if sender_eph and sender.got == 'some':  # the rest of a half received set will not come any more, and must not be completed by the next publisher on this address\n                                sender.new_recv()\n", "", ['C05.R11'])
+
+M('scan-D58-shape-stat-unprotected', ['C13', 'C14'], RL, "                try:\n                    size = os.stat(path).st_size\n                except FileNotFoundError:  # pruned by the writer between the listing and this look at it\n                    continue\n", "                size = os.stat(path).st_size\n", ['C13.R8', 'C14.R7'])
